@@ -1,8 +1,9 @@
 """helpers shared by the property modules"""
+import ast
 from fractions import Fraction
 
 from lcsa.alg import Rat
-from lcsa.model import Undecided
+from lcsa.model import Undecided, unparse
 from lcsa.sym import LETTERS, fmt_conds
 from lcsa.ref import Pair, subst_rows, charge_substitution, describe_rows
 from lcsa.dt import compare_rows, outcome_equal
@@ -55,12 +56,12 @@ def compare_tables(ck, rule, construct, code_rows, ref_rows, slot, where=None, d
     return False
 
 
-def check_api(ck, prog, pairs, rule="BIND-api", allow_pre=()):
+def check_api(ck, prog, pairs, rule="BIND-api", allow_pre=(), memo=None):
     """pairs: [(api method, backend method, argmap or None)]"""
     n = 0
     for api, backend, argmap in pairs:
         bind.check_wrapper(ck, prog, rule, SP, "SequenceParameters." + api, SEQ + ":Sequence." + backend,
-                           argmap=argmap, allow_pre=allow_pre)
+                           argmap=argmap, allow_pre=allow_pre, memo=memo)
         n += 1
     ck.count("api wrappers checked", n)
 
@@ -180,7 +181,7 @@ def anchored_functions(prog, E, pid):
 IGNORE_INPUTS = {("C01", _S + "deltaMax"): {"self.seq", "param:returnSeqDeltaMax"}, ("C05", _S + "deltaMax"): {"self.seq", "param:returnSeqDeltaMax"}}
 
 
-def check_memos(ck, prog, pid=None, scope=None, E=None):
+def check_memos(ck, prog, pid=None, scope=None, E=None, decide_lossy=None):
     """MEMO-KEY: caches that survive a call, in the functions this property's entry points reach"""
     from lcsa.eff import Effects
     from lcsa import memo
@@ -212,7 +213,14 @@ def check_memos(ck, prog, pid=None, scope=None, E=None):
         elif r["verdict"] == "ok":
             ck.ob("MEMO-KEY", s.construct, True, expected="complete key", found={"table": s.table, "key": r["key"]}, slot="table:" + s.table, where=s.where())
         else:
-            unknown.append("%s table %s keyed on %s (lossy: %s)" % (s.construct, s.table, r["key"], r["lossy"]))
+            # a key made of projections (counts, lengths): only a property that knows what the cached value depends on can decide it
+            w = decide_lossy(r) if decide_lossy is not None else None
+            if w is None:
+                unknown.append("%s table %s keyed on %s (lossy: %s)" % (s.construct, s.table, r["key"], r["lossy"]))
+            else:
+                ck.ob("MEMO-KEY", s.construct, w is True, expected="the cached value is a function of the key: two objects with equal keys get equal results",
+                      found={"table": "%s (%s-level)" % (s.table, s.scope), "key": r["key"], "witness": w if w is not True else "determined"},
+                      slot="table:" + s.table, where=s.where(), note="a result table keyed on less than the value depends on returns another sequence's result")
     for f, dname, wsite in memo.decorated(prog):
         if f.key not in scope:
             # outside this property's scope: no verdict here, but a key-complete memoising wrapper is transparent for the normaliser
@@ -361,3 +369,42 @@ def check_len_invariant(ck, prog, rule="INV-length"):
         ck.ob(rule, construct, lc is not None and lc == sc, expected="self.len == len(self.seq) when construction ends",
               found={"length_class_of_len_argument": lc, "length_class_of_final_self.seq": sc}, slot="validateSeq=%s" % validating, where=f.loc(),
               note="N in every formula is self.len; validation strips whitespace, so a length taken before it is wrong for such input")
+
+
+# ---------------------------------------------------------------------------------------------- what a memo key determines
+QUANTITY_OF_CALL = {"countPos": "npos", "countNeg": "nneg", "countNeut": "n0", "get_countPos": "npos", "get_countNeg": "nneg", "get_countNeut": "n0",
+                    "get_length": "N", "__len__": "N"}
+EVERYTHING = {"seq", "chargePattern", "get_sequence"}
+
+
+def key_quantities(prog, f, key):
+    """composition quantities a memo key determines: set over {npos, nneg, n0, N} or {'*'} (the whole sequence); None if a component is
+    not one of the recognised projections"""
+    comps = key.elts if isinstance(key, ast.Tuple) else [key]
+    out = set()
+    for c in comps:
+        if isinstance(c, ast.Call) and not c.args and not c.keywords:
+            callee = prog.resolve_call(f, c)
+            if callee is not None and callee.cls in ("Sequence", "SequenceParameters") and callee.name in QUANTITY_OF_CALL:
+                out.add(QUANTITY_OF_CALL[callee.name])
+                continue
+            if callee is not None and callee.cls in ("Sequence", "SequenceParameters") and callee.name in EVERYTHING:
+                return {"*"}
+            return None
+        if isinstance(c, ast.Call) and getattr(c.func, "id", None) == "len" and len(c.args) == 1:
+            a = c.args[0]
+            if unparse(a) in ("self", "self.SeqObj", "self.seq", "self.SeqObj.seq", "self.chargePattern", "self.SeqObj.chargePattern"):
+                out.add("N")
+                continue
+            return None
+        if isinstance(c, ast.Attribute) and c.attr == "len" and unparse(c.value) in ("self", "self.SeqObj"):
+            out.add("N")
+            continue
+        if isinstance(c, ast.Attribute) and c.attr in EVERYTHING and unparse(c.value) in ("self", "self.SeqObj"):
+            return {"*"}
+        return None
+    # N = n+ + n- + n0
+    four = {"npos", "nneg", "n0", "N"}
+    if len(out & four) >= 3:
+        out |= four
+    return out
